@@ -31,7 +31,7 @@ RULE = ("every queue of 1..N uniquely tagged packets over <= 3 destinations (up 
         "(complete) and UdpStack on the real SocketUdpNb over a socket double (every 3rd case); plus packets queued "
         "between passes (seeded random); distinct = distinct (class, mode, queue, failure pattern); non-trivial = "
         "at least one send failed while another packet was pending")
-RULE = __import__("vf.core", fromlist=["rule_add"]).rule_add(RULE, 'also packets built in a scratch buffer that is overwritten after queueing, and a txPkts deque supplied by the caller, transient errors built from the number alone')
+RULE = __import__("vf.core", fromlist=["rule_add"]).rule_add(RULE, 'also packets built in a scratch buffer that is overwritten after queueing, and a txPkts deque supplied by the caller, transient errors built from the number alone, a stack closed by its owner with packets queued and serviced while closed')
 META = {"engine": "D I/O doubles", "technique": "fault enumeration on a datagram handler double; per-pass per-destination prefix oracle",
         "level_text": "the space of small queues and per-pass failure patterns is enumerated completely",
         "level_note": "transient failure = the errno set GramStack documents; failures are per destination and pass"}
